@@ -24,13 +24,15 @@ from .predutil import PredictWorld, eq_rec, ge_rec, shapes, std_replay
 PROP = "C10"
 
 
-def unit(model, sizes):
+def unit(model, sizes, generic=False):
+    """generic: sizes = (1,)*n and every team has a symbolic number of members (the listed member is
+    the arbitrary one, the aggregates are symbols): the same obligations for teams of every size"""
     recs = []
     n = len(sizes)
-    shape = f"sizes={sizes}"
+    shape = f"sizes={sizes}" if not generic else f"n={len(sizes)},any-team-size"
     fn = f"{model}.predict_draw"
     rp = std_replay("c10_draw", model, sizes)
-    W = PredictWorld(model, sizes)
+    W = PredictWorld(model, sizes, generic=generic)
     base = W.run("predict_draw")
     if base[0] != "return":
         return [driver.rec(f"C10/{model}/predict_draw/returns@{shape}", "refuted", "explorer", 0, fn=fn, shape=shape, replay=rp, note=repr(base[1])[:200])]
@@ -64,7 +66,7 @@ def unit(model, sizes):
     recs.append(eq_rec(P, f"C10/{model}/predict_draw/is-average-of-band-probabilities@{shape}", d, term(sd), fn, shape, dict(rp, kind="c12_closed", op="predict_draw")))
     if details:
         from ..game import free_symbols
-        mus = {f"mu_{i}_{j}" for i in range(n) for j in range(sizes[i])}
+        mus = {f"mu_{i}_{j}" for i in range(n) for j in range(sizes[i])} | {f"mu_{i}_k" for i in range(n)} | {f"theta_{i}" for i in range(n)}
         clean = not (free_symbols([term(details["m"])] + [term(x) for x in details["s"].values()]) & mus)
         recs.append(driver.rec(f"C10/{model}/predict_draw/margin-and-scales-do-not-depend-on-mu@{shape}", "discharged" if clean else "refuted", "syntactic", 0,
                                fn=fn, shape=shape, mode="R", replay=None if clean else rp))
@@ -94,7 +96,7 @@ def unit(model, sizes):
         else:
             recs.append(driver.rec(f"C10/{model}/predict_draw/player-order-invariant[team{i}]@{shape}", "refuted", "explorer", 0, fn=fn, shape=shape, replay=rp))
     from .predutil import history_records
-    if n <= 3:
+    if n <= 3 and not generic:
         recs += history_records("C10", W, model, sizes, ("predict_draw",))
     return recs
 
@@ -136,7 +138,8 @@ def unit_lean():
 
 def units(tier):
     return [("unit_lemmas", ())] + ([("unit_lean", ())] if tier == "thorough" else []) + \
-        [("unit", (m, s)) for m in extract.MODELS for s in shapes(tier, nmax=3 if tier == "quick" else 5)]
+        [("unit", (m, s)) for m in extract.MODELS for s in shapes(tier, nmax=3 if tier == "quick" else 5)] + \
+        [("unit", (m, (1,) * n, True)) for m in extract.MODELS for n in range(2, (3 if tier == "quick" else 5) + 1)]
 
 
 def main(tier, seed):
@@ -147,6 +150,7 @@ def main(tier, seed):
         PROP, tier, seed, "other", records, errors, walls, t0,
         functions=fns,
         assumptions=[
+            __import__("pyvc.props.anysize", fromlist=["A_SUM"]).A_SUM,
             "A-Phi (0 < Phi < 1, reflection, monotone instances), PhiInv increasing with PhiInv(1/2) = 0; phi_major / phi_major_inverse enter as Phi / PhiInv (C17)",
             "L-band (the band probability Phi((m-d)/s) - Phi((-m-d)/s), m >= 0, s > 0, is even in d and non-increasing in |d|): machine-checked against Mathlib in lemmas/Phi2.lean (thorough tier); 'never increases as the gap widens' (two teams) and 'equalising never lowers' (n teams) are decided as: the code's value is the ordered-pair average of band probabilities with mu-free margin and scales (exact normal-form identity on the real predict_draw) + L-band + a generic z3 step",
             "NOT DECIDED: predict_draw <= 1 for two teams (needs the numeric constants sqrt(N/2) PhiInv(1/2 + 1/(2N)) <= PhiInv(3/4) for N = 2..16; no contract within reach decides them)",
@@ -155,5 +159,5 @@ def main(tier, seed):
         ],
         explanation=("Several executions of the real predict_draw on the same symbolic teams (base, adjacent team transpositions, swapped players): the value is the closed form |S|/D with S >= 0 proved from Phi-monotonicity instances (so abs is the identity), non-negative, <= 1 for more than two teams, and identical - as exact normal forms - under reordering of teams and of players. "
                      "The value is also proved to be the ordered-pair average of band probabilities whose margin and scales mention no mu, from which the two monotonicity clauses follow by the Lean-checked lemma L-band; '<= 1 for two teams' is listed as not decided."),
-        shapes=[str(s) for s in shapes(tier, nmax=3 if tier == "quick" else 5)],
+        shapes=[str(s) for s in shapes(tier, nmax=3 if tier == "quick" else 5)] + [f"n=2..{3 if tier == 'quick' else 5} teams of every size (symbolic member counts)"],
     )
